@@ -26,6 +26,7 @@ type HOpts struct {
 	Loc       *time.Location
 	Types     []byte // restrict column types (nil = all stream types)
 	BlobLens  []int  // preferred lengths for blob values (sizes around the transport buffer)
+	Switch    int    // how files end: 0 = rotation or (1 in 3) restart, 1 = always rotation, 2 = always restart
 }
 
 // DefaultHOpts gives moderate sizes.
@@ -402,7 +403,14 @@ func (b *Builder) RebindIDs() {
 // AddSwitch ends the current file: by a rotation or (one time in three) by a
 // server restart, after which table ids may be bound to other tables.
 func (b *Builder) AddSwitch() {
-	if b.R.Chance(1, 3) {
+	restart := b.R.Chance(1, 3)
+	switch b.O.Switch {
+	case 1:
+		restart = false
+	case 2:
+		restart = true
+	}
+	if restart {
 		b.Add(hist.Restart)
 		if b.R.Bool() {
 			b.RebindIDs()
